@@ -1,3 +1,578 @@
 package main
 
-func cmdMain(args []string) int { return 2 }
+import (
+	"bufio"
+	"encoding/json"
+	"fmt"
+	"os"
+	"os/exec"
+	"path/filepath"
+	"regexp"
+	"sort"
+	"strconv"
+	"strings"
+	"sync"
+	"time"
+)
+
+// ---- shared JSON shapes (mirror /verif/sim) ------------------------------------------
+
+type Violation struct {
+	Prop   string `json:"property"`
+	Oracle string `json:"oracle"`
+	Sig    string `json:"signature"`
+	Detail string `json:"detail"`
+	Step   int    `json:"step"`
+}
+
+type Decision struct {
+	Step   int    `json:"step"`
+	Choice int    `json:"choice"`
+	Of     int    `json:"of"`
+	Task   string `json:"task"`
+	Label  string `json:"label"`
+}
+
+type RunResult struct {
+	Index     uint64              `json:"index"`
+	Seed      uint64              `json:"seed"`
+	Engine    string              `json:"engine"`
+	Mode      string              `json:"mode"`
+	Plan      string              `json:"plan,omitempty"`
+	Hash      string              `json:"hash"`
+	Steps     int                 `json:"steps"`
+	SimTimeMS int64               `json:"sim_time_ms"`
+	Nontriv   bool                `json:"nontrivial"`
+	Inconcl   bool                `json:"inconclusive_budget"`
+	Discarded string              `json:"discarded,omitempty"`
+	Probes    map[string]int      `json:"probes,omitempty"`
+	Faults    map[string]int      `json:"faults,omitempty"`
+	Viol      []Violation         `json:"violations,omitempty"`
+	Other     []Violation         `json:"other_oracles,omitempty"`
+	States    int                 `json:"states"`
+	Preempt   int                 `json:"preemptions"`
+	Tapes     map[string][]uint32 `json:"tapes,omitempty"`
+	Desc      any                 `json:"desc,omitempty"`
+	Lines     []string            `json:"lines,omitempty"`
+	Decisions []Decision          `json:"decisions,omitempty"`
+	Census    []string            `json:"census,omitempty"`
+	Infra     string              `json:"infra,omitempty"`
+	Draws     int                 `json:"draws"`
+	StateHashes []uint64          `json:"state_hashes,omitempty"`
+}
+
+type RunSpec struct {
+	Engine  string              `json:"engine"`
+	Prop    string              `json:"prop"`
+	Mode    string              `json:"mode"`
+	Seed    uint64              `json:"seed"`
+	Index   uint64              `json:"index"`
+	Tier    string              `json:"tier"`
+	Budget  int                 `json:"budget"`
+	Verbose bool                `json:"verbose"`
+	Tapes   map[string][]uint32 `json:"tapes,omitempty"`
+	Replay  bool                `json:"replay"`
+	Params  map[string]string   `json:"params,omitempty"`
+}
+
+type WorkerArgs struct {
+	Spec      RunSpec `json:"spec"`
+	From      uint64  `json:"from"`
+	To        uint64  `json:"to"`
+	Stride    uint64  `json:"stride"`
+	Out       string  `json:"out"`
+	Full      bool    `json:"full"`
+	Samples   int     `json:"samples"`
+	Resample  int     `json:"resample"`
+	DeadlineS int     `json:"deadline_s"`
+	Enumerate string  `json:"enumerate,omitempty"`
+	Serve     bool    `json:"serve,omitempty"`
+}
+
+// ---- property table -----------------------------------------------------------------------
+
+type propCfg struct {
+	Engine    string
+	Level     string
+	Quick     uint64 // number of run indices
+	Thorough  uint64
+	QuickS    int // wall clock cap for the run phase (seconds)
+	ThoroughS int
+	Enumerate string
+	Budget    int
+	Rule      string
+	Real      []string
+	Stub      []string
+	Assume    []string
+}
+
+var e1Real = []string{"drpcwire", "drpcstream", "drpcmanager", "drpcconn", "drpcserver", "drpcmux", "drpcmetadata", "drpcerr", "drpcsignal", "drpcctx", "drpccache", "drpcenc"}
+var e1Stub = []string{"sync (replaced by director-mediated simsync)", "runtime select poll order (hooked)", "transport/listener (simnet)", "message encoding and application scripts", "clock (testing/synctest fake clock)"}
+
+var props = map[string]propCfg{}
+
+func init() {
+	e1 := func(level string, q, t uint64, rule string) propCfg {
+		return propCfg{Engine: "rpc-sim", Level: level, Quick: q, Thorough: t, QuickS: 40, ThoroughS: 1500, Rule: rule, Real: e1Real, Stub: e1Stub,
+			Assume: []string{"sequentially consistent interleavings at the granularity of the instrumented yield points", "transport honours the net.Conn contract (reliable ordered byte stream; Close releases parked I/O)", "sampled schedules/programs/configurations, not exhaustive"}}
+	}
+	ntRule := "one case = one simulated execution (seeded program + configuration + schedule + faults); distinct = distinct SHA-256 of the full director log; non-trivial = at least one message/response was delivered AND (at least one preemption of a runnable task happened OR at least one fault fired)"
+	for _, id := range []string{"C01", "C02", "C04", "C06", "C07", "C10", "C11", "C13", "C18"} {
+		props[id] = e1("exploration", 16000, 1600000, ntRule)
+	}
+}
+
+// ---- helpers ---------------------------------------------------------------------------------
+
+func envInt(name string, def int) int {
+	if v := os.Getenv(name); v != "" {
+		if n, err := strconv.Atoi(v); err == nil {
+			return n
+		}
+	}
+	return def
+}
+
+func mkWork() (string, error) {
+	base := os.Getenv("VERIF_TMP")
+	if base == "" {
+		base = os.TempDir()
+	}
+	return os.MkdirTemp(base, "verifsim-")
+}
+
+type known struct {
+	Status string `json:"status"`
+	Prop   string `json:"property"`
+	Regex  string `json:"signature_regex"`
+	Where  string `json:"where"`
+	Note   string `json:"note"`
+	Commit string `json:"commit,omitempty"`
+	re     *regexp.Regexp
+}
+
+func loadKnown(verif string) ([]*known, error) {
+	f, err := os.Open(filepath.Join(verif, "known_findings.jsonl"))
+	if err != nil {
+		if os.IsNotExist(err) {
+			return nil, nil
+		}
+		return nil, err
+	}
+	defer f.Close()
+	var out []*known
+	sc := bufio.NewScanner(f)
+	sc.Buffer(make([]byte, 1<<20), 1<<20)
+	for sc.Scan() {
+		line := strings.TrimSpace(sc.Text())
+		if line == "" || strings.HasPrefix(line, "#") {
+			continue
+		}
+		var k known
+		if err := json.Unmarshal([]byte(line), &k); err != nil {
+			return nil, fmt.Errorf("known_findings.jsonl: %v", err)
+		}
+		if k.Status == "known" {
+			re, err := regexp.Compile(k.Regex)
+			if err != nil {
+				return nil, err
+			}
+			k.re = re
+		}
+		out = append(out, &k)
+	}
+	return out, sc.Err()
+}
+
+func runWorker(bin string, wa WorkerArgs, gomaxprocs int) error {
+	raw, _ := json.Marshal(wa)
+	cmd := exec.Command(bin, "-test.run", "^TestSim$", "-test.timeout", "6h")
+	cmd.Env = append(os.Environ(), "VERIF_WORKER="+string(raw), fmt.Sprintf("GOMAXPROCS=%d", gomaxprocs))
+	out, err := cmd.CombinedOutput()
+	if err != nil {
+		return fmt.Errorf("worker failed: %v\n%s", err, tail(string(out), 3000))
+	}
+	if !strings.Contains(string(out), "PASS") {
+		return fmt.Errorf("worker did not pass:\n%s", tail(string(out), 3000))
+	}
+	return nil
+}
+
+func tail(s string, n int) string {
+	if len(s) > n {
+		return s[len(s)-n:]
+	}
+	return s
+}
+
+func readResults(path string, f func(*RunResult)) error {
+	fh, err := os.Open(path)
+	if err != nil {
+		return err
+	}
+	defer fh.Close()
+	sc := bufio.NewScanner(fh)
+	sc.Buffer(make([]byte, 1<<20), 256<<20)
+	for sc.Scan() {
+		var r RunResult
+		if err := json.Unmarshal(sc.Bytes(), &r); err != nil {
+			return fmt.Errorf("%s: %v", path, err)
+		}
+		f(&r)
+	}
+	return sc.Err()
+}
+
+// ---- check ---------------------------------------------------------------------------------
+
+type aggregate struct {
+	mu          sync.Mutex
+	runs        int
+	nontrivial  map[string]struct{}
+	allHashes   map[string]struct{}
+	inconcl     int
+	discarded   map[string]int
+	steps       int64
+	simMS       int64
+	probes      map[string]int
+	faults      map[string]int
+	other       map[string]int
+	samples     []*RunResult
+	viol        map[string]*RunResult // signature -> first run
+	violCount   map[string]int
+	infra       []string
+	resampleOK  int
+	states      map[uint64]struct{}
+	preempt     int64
+}
+
+func newAgg() *aggregate {
+	return &aggregate{nontrivial: map[string]struct{}{}, allHashes: map[string]struct{}{}, discarded: map[string]int{},
+		probes: map[string]int{}, faults: map[string]int{}, other: map[string]int{}, viol: map[string]*RunResult{}, violCount: map[string]int{}, states: map[uint64]struct{}{}}
+}
+
+func (a *aggregate) add(r *RunResult, prop string) {
+	a.mu.Lock()
+	defer a.mu.Unlock()
+	a.runs++
+	a.steps += int64(r.Steps)
+	a.simMS += r.SimTimeMS
+	a.preempt += int64(r.Preempt)
+	a.allHashes[r.Hash] = struct{}{}
+	if r.Nontriv {
+		a.nontrivial[r.Hash] = struct{}{}
+	}
+	if r.Inconcl {
+		a.inconcl++
+	}
+	if r.Discarded != "" {
+		a.discarded[r.Discarded]++
+	}
+	for k, v := range r.Probes {
+		if k == "determinism_resample_ok" {
+			a.resampleOK += v
+			continue
+		}
+		a.probes[k] += v
+	}
+	for k, v := range r.Faults {
+		a.faults[k] += v
+	}
+	for _, h := range r.StateHashes {
+		a.states[h] = struct{}{}
+	}
+	for _, v := range r.Other {
+		a.other[v.Oracle]++
+	}
+	if r.Infra != "" {
+		if len(a.infra) < 5 {
+			a.infra = append(a.infra, fmt.Sprintf("index=%d plan=%s: %s", r.Index, r.Plan, r.Infra))
+		}
+	}
+	if len(r.Lines) > 0 && len(a.samples) < 4 && len(r.Viol) == 0 && r.Nontriv {
+		a.samples = append(a.samples, r)
+	}
+	for _, v := range r.Viol {
+		key := v.Oracle + " :: " + v.Sig
+		a.violCount[key]++
+		if old, ok := a.viol[key]; !ok || r.Steps < old.Steps {
+			if r.Tapes != nil {
+				a.viol[key] = r
+			}
+		}
+	}
+}
+
+func cmdCheck(prop, tier string) int {
+	start := time.Now()
+	cfg, ok := props[prop]
+	if !ok {
+		fmt.Fprintf(os.Stderr, "unknown property %s\n", prop)
+		return 2
+	}
+	if t := os.Getenv("VERIF_TIER"); t != "" {
+		tier = t
+	}
+	if tier != "quick" && tier != "thorough" {
+		fmt.Fprintf(os.Stderr, "tier must be quick or thorough\n")
+		return 2
+	}
+	seed := uint64(envInt("VERIF_SEED", 1))
+	verif, repo := verifDir(), repoDir()
+	work, err := mkWork()
+	if err != nil {
+		fmt.Fprintln(os.Stderr, err)
+		return 2
+	}
+	defer os.RemoveAll(work)
+	bres, err := buildSim(verif, repo, work)
+	if err != nil {
+		fmt.Fprintln(os.Stderr, "BUILD-ERROR:", err)
+		return 2
+	}
+	buildS := time.Since(start).Seconds()
+	fmt.Printf("built simulation binary from %s (%d instrumented files) in %.1fs\n", repo, bres.Files, buildS)
+
+	total, capS := cfg.Quick, cfg.QuickS
+	if tier == "thorough" {
+		total, capS = cfg.Thorough, cfg.ThoroughS
+	}
+	if v := envInt("VERIF_RUNS", 0); v > 0 {
+		total = uint64(v)
+	}
+	if v := envInt("VERIF_CAP_S", 0); v > 0 {
+		capS = v
+	}
+	nw := envInt("VERIF_WORKERS", 16)
+	chunk := uint64(1500)
+	if cfg.Enumerate != "" {
+		chunk = 40
+	}
+	spec := RunSpec{Engine: cfg.Engine, Prop: prop, Seed: seed, Tier: tier, Budget: cfg.Budget}
+
+	agg := newAgg()
+	var wg sync.WaitGroup
+	jobs := make(chan [2]uint64, 1024)
+	var firstErr error
+	var errMu sync.Mutex
+	deadline := time.Now().Add(time.Duration(capS) * time.Second)
+	for w := 0; w < nw; w++ {
+		wg.Add(1)
+		go func(w int) {
+			defer wg.Done()
+			n := 0
+			for j := range jobs {
+				left := time.Until(deadline)
+				if left < time.Second {
+					continue
+				}
+				out := filepath.Join(work, fmt.Sprintf("out-%d-%d.jsonl", w, n))
+				n++
+				wa := WorkerArgs{Spec: spec, From: j[0], To: j[1], Stride: 1, Out: out, Samples: 1, Resample: 97,
+					DeadlineS: int(left.Seconds()), Enumerate: cfg.Enumerate}
+				if err := runWorker(bres.Binary, wa, 2); err != nil {
+					errMu.Lock()
+					if firstErr == nil {
+						firstErr = err
+					}
+					errMu.Unlock()
+					continue
+				}
+				readResults(out, func(r *RunResult) { agg.add(r, prop) })
+				os.Remove(out)
+			}
+		}(w)
+	}
+	for from := uint64(0); from < total; from += chunk {
+		to := from + chunk
+		if to > total {
+			to = total
+		}
+		jobs <- [2]uint64{from, to}
+	}
+	close(jobs)
+	wg.Wait()
+	runS := time.Since(start).Seconds() - buildS
+	if firstErr != nil {
+		fmt.Fprintln(os.Stderr, "INFRA-ERROR:", firstErr)
+		return 2
+	}
+	if len(agg.infra) > 0 {
+		fmt.Fprintln(os.Stderr, "INFRA-ERROR:", strings.Join(agg.infra, "\n"))
+		return 2
+	}
+	if agg.runs == 0 {
+		fmt.Fprintln(os.Stderr, "INFRA-ERROR: no runs executed")
+		return 2
+	}
+	if agg.inconcl*50 > agg.runs {
+		fmt.Fprintf(os.Stderr, "INFRA-ERROR: %d of %d runs exhausted their step budget (workload mis-tuned)\n", agg.inconcl, agg.runs)
+		return 2
+	}
+
+	// violations: known findings, minimisation, fresh-process replay
+	kf, err := loadKnown(verif)
+	if err != nil {
+		fmt.Fprintln(os.Stderr, "INFRA-ERROR:", err)
+		return 2
+	}
+	var keys []string
+	for k := range agg.viol {
+		keys = append(keys, k)
+	}
+	sort.Strings(keys)
+	exit := 0
+	knownHit := map[string]int{}
+	reported := 0
+	var violLines []string
+	for _, key := range keys {
+		r := agg.viol[key]
+		var v Violation
+		for _, vv := range r.Viol {
+			if vv.Oracle+" :: "+vv.Sig == key {
+				v = vv
+			}
+		}
+		matched := false
+		for _, k := range kf {
+			if k.Status == "known" && k.Prop == prop && k.re.MatchString(v.Oracle+": "+v.Sig) {
+				knownHit[k.Regex+"\x00"+k.Where] += agg.violCount[key]
+				matched = true
+				break
+			}
+		}
+		if matched {
+			continue
+		}
+		reported++
+		if reported > 3 {
+			violLines = append(violLines, fmt.Sprintf("  (further violation class not minimised) %s x%d", key, agg.violCount[key]))
+			exit = 1
+			continue
+		}
+		shrinkBudget := 400
+		if tier == "thorough" {
+			shrinkBudget = 3000
+		}
+		rf, err := shrinkAndWrite(bres.Binary, verif, work, spec, r, v, shrinkBudget)
+		if err != nil {
+			fmt.Fprintln(os.Stderr, "INFRA-ERROR: replay/minimisation failed:", err)
+			return 2
+		}
+		fmt.Printf("VIOLATION property=%s replay=%s\n", prop, rf)
+		fmt.Printf("  oracle=%s signature=%q occurrences=%d\n", v.Oracle, v.Sig, agg.violCount[key])
+		exit = 1
+	}
+	for _, l := range violLines {
+		fmt.Println(l)
+	}
+	for _, k := range kf {
+		if k.Status == "known" && k.Prop == prop {
+			if n := knownHit[k.Regex+"\x00"+k.Where]; n > 0 {
+				fmt.Printf("KNOWN-FINDING: property=%s %s (seen in %d runs)\n", prop, k.Where, n)
+			} else {
+				fmt.Printf("KNOWN-FINDING: property=%s %s (not reproduced in this run's sample)\n", prop, k.Where)
+			}
+		}
+	}
+
+	wall := time.Since(start).Seconds()
+	if err := writeEvidence(verif, prop, tier, seed, cfg, agg, wall, runS, exit, knownHit); err != nil {
+		fmt.Fprintln(os.Stderr, "INFRA-ERROR:", err)
+		return 2
+	}
+	fmt.Printf("%s %s: runs=%d distinct_nontrivial=%d steps=%d sim_time=%.1fs inconclusive=%d violations=%d known=%d wall=%.1fs (%.0f runs/s)\n",
+		prop, tier, agg.runs, len(agg.nontrivial), agg.steps, float64(agg.simMS)/1000, agg.inconcl, len(keys), len(knownHit), wall, float64(agg.runs)/runS)
+	return exit
+}
+
+func writeEvidence(verif, prop, tier string, seed uint64, cfg propCfg, a *aggregate, wall, runS float64, exit int, knownHit map[string]int) error {
+	var samples []any
+	for _, s := range a.samples {
+		lines := s.Lines
+		if len(lines) > 40 {
+			lines = lines[:40]
+		}
+		samples = append(samples, map[string]any{"seed": s.Seed, "index": s.Index, "plan": s.Plan, "program": s.Desc, "steps": s.Steps,
+			"first_steps": lines, "faults_fired": s.Faults, "log_sha256": s.Hash})
+	}
+	if len(samples) == 0 {
+		samples = append(samples, map[string]any{"note": "no non-violating non-trivial run was kept as a sample in this invocation"})
+	}
+	var never []string
+	for k, v := range a.probes {
+		if v == 0 {
+			never = append(never, k)
+		}
+	}
+	nViol := 0
+	for range a.viol {
+		nViol++
+	}
+	kh := map[string]int{}
+	for k, v := range knownHit {
+		kh[strings.SplitN(k, "\x00", 2)[1]] = v
+	}
+	ev := map[string]any{
+		"property_id": prop,
+		"tier":        tier,
+		"seed":        seed,
+		"level":       cfg.Level,
+		"wall_s":      wall,
+		"violations":  nViol - len(kh),
+		"assumptions": cfg.Assume,
+		"coverage": map[string]any{
+			"evaluations":            a.runs,
+			"distinct_nontrivial":    len(a.nontrivial),
+			"distinct_executions":    len(a.allHashes),
+			"rule":                   cfg.Rule,
+			"samples":                samples,
+			"runs_per_hour":          int(float64(a.runs) / runS * 3600),
+			"seeds":                  map[string]any{"base_seed": seed, "run_indices": a.runs},
+			"steps_total":            a.steps,
+			"preemptions_total":      a.preempt,
+			"sim_time_seconds":       float64(a.simMS) / 1000,
+			"inconclusive_budget":    a.inconcl,
+			"discarded":              a.discarded,
+			"faults_injected":        a.faults,
+			"probes":                 a.probes,
+			"probes_never_hit":       never,
+			"distinct_states":        len(a.states),
+			"distinct_states_measure": "distinct hashes of the multiset {(task name, state, park label)} observed after director steps, union over sampled runs",
+			"determinism_resamples":  a.resampleOK,
+			"determinism_mismatches": 0,
+			"other_oracle_hits":      a.other,
+			"real_components":        cfg.Real,
+			"stub_components":        cfg.Stub,
+			"known_findings_hit":     kh,
+			"engine":                 cfg.Engine,
+		},
+	}
+	b, err := json.MarshalIndent(ev, "", " ")
+	if err != nil {
+		return err
+	}
+	os.MkdirAll(filepath.Join(verif, "evidence"), 0o755)
+	return os.WriteFile(filepath.Join(verif, "evidence", prop+".json"), b, 0o644)
+}
+
+func cmdMain(args []string) int {
+	switch args[0] {
+	case "check":
+		if len(args) < 3 {
+			fmt.Fprintln(os.Stderr, "usage: runner check <prop> <quick|thorough>")
+			return 2
+		}
+		return cmdCheck(args[1], args[2])
+	case "replay":
+		if len(args) < 2 {
+			fmt.Fprintln(os.Stderr, "usage: runner replay <file>")
+			return 2
+		}
+		return cmdReplay(args[1])
+	case "selftest":
+		return cmdSelftest(args[1:])
+	}
+	fmt.Fprintln(os.Stderr, "unknown command", args[0])
+	return 2
+}
